@@ -158,28 +158,44 @@ package machine
 
 // ---- Allotment (allotment.go) ------------------------------------------------------------------
 
-//@ sumfold ratsum(a []big.Rat) real = real(e.num) / real(e.den)
-//@ sumfold floorsum(a []big.Rat, amt int) = (amt * e.num) / e.den
-//@ sumfold share(a []big.Rat, amt int) real = real(amt * e.num) / real(e.den)
+//@ opaque fl(n int, d int) int = n / d
+//@ opaque rq(n int, d int) real = real(n) / real(d)
+//@ opaque floorShare(amt int, r big.Rat) int = fl(amt * r.num, r.den)
+//@ opaque realShare(amt int, r big.Rat) real = rq(amt * r.num, r.den)
+//@ opaque ratio(r big.Rat) real = rq(r.num, r.den)
+//@ sumfold ratsum(a []big.Rat) real = ratio(e)
+//@ sumfold floorsum(a []big.Rat, amt int) = floorShare(amt, e)
+//@ sumfold share(a []big.Rat, amt int) real = realShare(amt, e)
 //@ sumfold psum(s []*MonetaryInt) = val(e)
+//@ define posDen(a []big.Rat) bool = forall i int :: {a[i]} 0 <= i && i < len(a) ==> a[i].num >= 0 && a[i].den > 0
+
+// floor bounds of one share, and "scaling commutes with the sum of portions" (by induction on the prefix length):
+//@ lemma floorBounds(amt int, r big.Rat) :: {floorShare(amt, r)} {realShare(amt, r)} r.den > 0 ==> real(floorShare(amt, r)) <= realShare(amt, r) && realShare(amt, r) < real(floorShare(amt, r)) + 1
+//@ lemma shareOne(amt int, r big.Rat) :: {realShare(amt, r)} r.den > 0 ==> realShare(amt, r) == real(amt) * ratio(r)
+//@ lemma shareScale(a []big.Rat, k int, amt int) induction k :: {share_upto(a, k, amt)} (0 <= k && k <= len(a) && posDen(a)) ==> share_upto(a, k, amt) == real(amt) * ratsum_upto(a, k)
 
 //@ func (a Allotment) Allocate(amount *MonetaryInt) (parts []*MonetaryInt)
 //@   property C22 C24 C36
 //@   requires amount != nil && val(amount) >= 0
-//@   requires forall i int :: 0 <= i && i < len(a) ==> a[i].num >= 0 && a[i].den > 0
+//@   requires posDen(a)
 //@   requires ratsum(a) == 1
 //@   ensures len(parts) == len(a)
 //@   ensures psum(parts) == val(amount)
-//@   ensures forall i int :: 0 <= i && i < len(a) ==> parts[i] != nil
-//@   ensures forall i int :: 0 <= i && i < len(a) ==> (val(amount) * a[i].num) / a[i].den <= val(parts[i]) && val(parts[i]) <= (val(amount) * a[i].num) / a[i].den + 1
+//@   ensures forall i int :: {parts[i]} 0 <= i && i < len(a) ==> parts[i] != nil
+//@   ensures forall i int :: {parts[i]} 0 <= i && i < len(a) ==> floorShare(val(amount), a[i]) <= val(parts[i]) && val(parts[i]) <= floorShare(val(amount), a[i]) + 1
 //@   ensures 0 <= val(amount) - floorsum(a, val(amount)) && val(amount) - floorsum(a, val(amount)) < len(a)
-//@   ensures forall i int :: 0 <= i && i < len(a) ==> val(parts[i]) == (val(amount) * a[i].num) / a[i].den + (i < val(amount) - floorsum(a, val(amount)) ? 1 : 0)
+//@   ensures forall i int :: {parts[i]} 0 <= i && i < len(a) ==> val(parts[i]) == floorShare(val(amount), a[i]) + (i < val(amount) - floorsum(a, val(amount)) ? 1 : 0)
 //@   loop 1:
+//@     reveal fl floorShare
+//@     mention floorShare(val(amount), allot)
+//@     mention realShare(val(amount), allot)
+//@     mention share_upto(a, i + 1, val(amount))
+//@     mention floorsum_upto(a, i + 1, val(amount))
+//@     mention ratsum_upto(a, i + 1)
 //@     invariant len(parts) == len(a) && totalAllocated != nil
-//@     invariant forall j int :: {parts[j]} 0 <= j && j < i ==> parts[j] != nil && val(parts[j]) == (val(amount) * a[j].num) / a[j].den
+//@     invariant forall j int :: {parts[j]} 0 <= j && j < i ==> parts[j] != nil && val(parts[j]) == floorShare(val(amount), a[j])
 //@     invariant val(totalAllocated) == floorsum_upto(a, i, val(amount))
 //@     invariant psum_upto(parts, i) == floorsum_upto(a, i, val(amount))
-//@     invariant share_upto(a, i, val(amount)) == real(val(amount)) * ratsum_upto(a, i)
 //@     invariant share_upto(a, i, val(amount)) - real(i) <= real(floorsum_upto(a, i, val(amount)))
 //@     invariant real(floorsum_upto(a, i, val(amount))) <= share_upto(a, i, val(amount))
 //@     invariant i > 0 ==> share_upto(a, i, val(amount)) - real(i) < real(floorsum_upto(a, i, val(amount)))
@@ -187,7 +203,7 @@ package machine
 //@     invariant len(parts) == len(a) && totalAllocated != nil
 //@     invariant val(totalAllocated) == floorsum(a, val(amount)) + min(i, val(amount) - floorsum(a, val(amount)))
 //@     invariant psum(parts) == val(totalAllocated)
-//@     invariant forall j int :: {parts[j]} 0 <= j && j < len(a) ==> parts[j] != nil && val(parts[j]) == (val(amount) * a[j].num) / a[j].den + ((j < i && j < val(amount) - floorsum(a, val(amount))) ? 1 : 0)
+//@     invariant forall j int :: {parts[j]} 0 <= j && j < len(a) ==> parts[j] != nil && val(parts[j]) == floorShare(val(amount), a[j]) + ((j < i && j < val(amount) - floorsum(a, val(amount))) ? 1 : 0)
 
 // ---- values from strings (json.go, account.go, asset.go): C27, C28 -------------------------------------
 
@@ -241,3 +257,18 @@ package machine
 //@   ensures err == nil && typ == TypeMonetary ==> is(v, Monetary) && validAsset(v.(Monetary).Asset) && v.(Monetary).Amount != nil && val(v.(Monetary).Amount) >= 0
 //@   ensures err == nil && typ == TypePortion ==> is(v, Portion) && !v.(Portion).Remaining && v.(Portion).Specific != nil
 //@   ensures err == nil && typ == TypeString ==> is(v, String)
+
+//@ func (a *MonetaryInt) Uint64() (r uint64)
+//@   property W01
+//@   requires a != nil
+//@   ensures (0 <= val(a) && val(a) < 18446744073709551616) ==> r == val(a)
+
+//@ func (a *MonetaryInt) ToBigInt() (r *big.Int)
+//@   property W01
+//@   ensures r == a
+
+//@ assumed func NewAllotment(portions []Portion) (r *Allotment, err error)
+//@   ensures err == nil ==> r != nil
+//@   note assumed (rational arithmetic of NewAllotment is not brought under contract yet); requires every non-remaining portion to have a non-nil Specific, established by wfValue of the stack
+
+//@ define wfValue(v Value) bool = v != nil && (is(v, *MonetaryInt) ==> v.(*MonetaryInt) != nil) && (is(v, Monetary) ==> v.(Monetary).Amount != nil) && (is(v, Funding) ==> wfParts(v.(Funding).Parts))
